@@ -7,7 +7,9 @@ def check(pid, tier, replay):
     gens = [("endpoint/ConnGen", "endpoint/ConnGen_client%s.cfg" % ("_deep" if deep else "")),
             ("endpoint/ConnGen", "endpoint/ConnGen_listener%s.cfg" % ("_deep" if deep else "")),
             # frames still queued inside the endpoint when the peer's close is read
-            ("endpoint/FailGen", "endpoint/FailGen_client_burst.cfg")]
+            ("endpoint/FailGen", "endpoint/FailGen_client_burst.cfg"),
+            # the peer lets its own idle periods pass before it answers the endpoint's close
+            ("endpoint/LimitsGen", "endpoint/LimitsGen_cl.cfg")]
     endpoint.run(pid, tier, replay, ("C12_",), [("endpoint/ConnLife", None)], gens,
                  "every sequence of application / peer events up to the depth bound over the 16-event alphabet of ConnGen.tla, client and listener side; "
-                 "plus the FailGen scripts that hand a burst of some thirty link-level transfer frames to the endpoint, let 1-5 scheduler turns pass and then deliver the peer's close; distinct = distinct scripts")
+                 "plus the FailGen scripts that hand a burst of some thirty link-level transfer frames to the endpoint, let 1-5 scheduler turns pass and then deliver the peer's close, and the LimitsGen scripts in which the peer (idle time-out 200 ms) answers the endpoint's close only after up to 1.3 s; distinct = distinct scripts")
